@@ -65,3 +65,73 @@ func (b *box) BadBranch(c bool) int {
 	}
 	return b.n
 }
+
+type rec struct {
+	id   int
+	tags []string
+	meta map[string]int
+	next *rec
+}
+
+func (r *rec) goodCopy() *rec {
+	cpy := &rec{id: r.id, next: r.next.goodCopy()}
+	cpy.tags = append([]string(nil), r.tags...)
+	cpy.meta = make(map[string]int)
+	for k, v := range r.meta {
+		cpy.meta[k] = v
+	}
+	return cpy
+}
+
+// forgets a field
+func (r *rec) badCopyMissing() *rec {
+	return &rec{id: r.id, tags: append([]string(nil), r.tags...), next: nil}
+}
+
+// aliases a map
+func (r *rec) badCopyAlias() *rec {
+	cpy := *r
+	cpy.tags = append([]string(nil), r.tags...)
+	cpy.next = nil
+	return &cpy
+}
+
+func (r *rec) goodReset() {
+	r.id = 0
+	r.tags = r.tags[:0]
+	clear(r.meta)
+	r.next = nil
+}
+
+func (r *rec) badReset() {
+	r.id = 0
+	r.tags = r.tags[:0]
+	r.next = nil
+}
+
+type bag struct {
+	items map[int]*rec
+	n     int
+}
+
+func (b *bag) goodBagCopy() *bag {
+	c := &bag{items: make(map[int]*rec, len(b.items)), n: b.n}
+	for k, v := range b.items {
+		c.items[k] = v.goodCopy()
+	}
+	return c
+}
+
+// elements shared
+func (b *bag) badBagCopyShared() *bag {
+	c := &bag{items: make(map[int]*rec, len(b.items)), n: b.n}
+	for k, v := range b.items {
+		c.items[k] = v
+	}
+	return c
+}
+
+// container never filled
+func (b *bag) badBagCopyEmpty() *bag {
+	return &bag{items: make(map[int]*rec, len(b.items)), n: b.n}
+}
